@@ -128,86 +128,102 @@ func csExploreOrder(c *runCtx, name string, bound int, deadline time.Time, class
 		}
 		c.violation(finding, fmt.Sprintf("[%s, d<=%d] %s", label, bound, f.Msg), map[string]any{"engine": "cs", "scenario": name, "order": order, "choices": f.Choices, "trace": f.Trace, "variant": "instr"})
 	}
+	workerRestarts := 0
 	for sh := 0; sh < shards; sh++ {
 		wg.Add(1)
 		go func(sh int) {
 			defer wg.Done()
-			pr, pw, err := os.Pipe()
-			if err != nil {
-				c.engineError("pipe: %v", err)
-
-				return
-			}
-			cmd := exec.Command(os.Args[0], childArgs("-test.run", "^TestVerifCSWorker$", "-test.timeout", "0")...) //nolint:gosec
-			cmd.Env = append(os.Environ(), "VERIF_CS_SCEN="+name, "VERIF_CS_BOUND="+strconv.Itoa(bound), fmt.Sprintf("VERIF_CS_SHARD=%d/%d", sh, shards),
-				"VERIF_CHECK=", "VERIF_PROP="+c.prop, "VERIF_CS_ORDER="+order, "GOMAXPROCS=2", "VERIF_CS_DEADLINE="+strconv.FormatInt(deadline.Unix(), 10))
-			cmd.ExtraFiles = []*os.File{pw}
-			var stderr bytes.Buffer
-			cmd.Stderr, cmd.Stdout = &stderr, &stderr
-			if err := cmd.Start(); err != nil {
-				c.engineError("start worker: %v", err)
-
-				return
-			}
-			_ = pw.Close()
-			rd := bufio.NewReaderSize(pr, 1<<20)
-			gotStats, gotEarly := false, false
-			for {
-				line, err := rd.ReadBytes('\n')
+			// a worker that dies without a result (an engine panic such as a replay divergence, a fatal runtime error in the
+			// harness) is started again, twice at most: the shard is a deterministic function of its arguments
+			for attempt := 0; ; attempt++ {
+				pr, pw, err := os.Pipe()
 				if err != nil {
-					break
+					c.engineError("pipe: %v", err)
+
+					return
 				}
-				var m csMsg
-				if json.Unmarshal(line, &m) != nil {
-					continue
+				cmd := exec.Command(os.Args[0], childArgs("-test.run", "^TestVerifCSWorker$", "-test.timeout", "0")...) //nolint:gosec
+				cmd.Env = append(os.Environ(), "VERIF_CS_SCEN="+name, "VERIF_CS_BOUND="+strconv.Itoa(bound), fmt.Sprintf("VERIF_CS_SHARD=%d/%d", sh, shards),
+					"VERIF_CHECK=", "VERIF_PROP="+c.prop, "VERIF_CS_ORDER="+order, "GOMAXPROCS=2", "VERIF_CS_DEADLINE="+strconv.FormatInt(deadline.Unix(), 10))
+				cmd.ExtraFiles = []*os.File{pw}
+				var stderr bytes.Buffer
+				cmd.Stderr, cmd.Stdout = &stderr, &stderr
+				if err := cmd.Start(); err != nil {
+					c.engineError("start worker: %v", err)
+
+					return
 				}
-				switch m.Type {
-				case "fail":
-					gotEarly = true
-					report(*m.Failure, true)
-				case "stats":
-					gotStats = true
-					mu.Lock()
-					st := m.Stats
-					total.Execs += st.Execs
-					total.Steps += st.Steps
-					total.Schedules += st.Schedules
-					total.NFailures += st.NFailures
-					if st.MaxChoice > total.MaxChoice {
-						total.MaxChoice = st.MaxChoice
+				_ = pw.Close()
+				rd := bufio.NewReaderSize(pr, 1<<20)
+				gotStats, gotEarly := false, false
+				for {
+					line, err := rd.ReadBytes('\n')
+					if err != nil {
+						break
 					}
-					for k, v := range st.Outcomes {
-						total.Outcomes[k] += v
+					var m csMsg
+					if json.Unmarshal(line, &m) != nil {
+						continue
 					}
-					if st.Capped != "" {
-						total.Capped = st.Capped
-					}
-					if total.Sample == nil {
-						total.Sample = st.Sample
-					}
-					mu.Unlock()
-					for _, f := range st.Failures {
-						report(f, false)
+					switch m.Type {
+					case "fail":
+						gotEarly = true
+						report(*m.Failure, true)
+					case "stats":
+						gotStats = true
+						mu.Lock()
+						st := m.Stats
+						total.Execs += st.Execs
+						total.Steps += st.Steps
+						total.Schedules += st.Schedules
+						total.NFailures += st.NFailures
+						if st.MaxChoice > total.MaxChoice {
+							total.MaxChoice = st.MaxChoice
+						}
+						for k, v := range st.Outcomes {
+							total.Outcomes[k] += v
+						}
+						if st.Capped != "" {
+							total.Capped = st.Capped
+						}
+						if total.Sample == nil {
+							total.Sample = st.Sample
+						}
+						mu.Unlock()
+						for _, f := range st.Failures {
+							report(f, false)
+						}
 					}
 				}
-			}
-			_ = cmd.Wait()
-			if !gotStats {
-				tail := stderr.String()
-				if len(tail) > 3000 {
-					tail = tail[len(tail)-3000:]
+				_ = cmd.Wait()
+				if !gotStats {
+					tail := stderr.String()
+					if len(tail) > 3000 {
+						tail = tail[len(tail)-3000:]
+					}
+					if gotEarly {
+						mu.Lock()
+						total.Capped = "a worker died after reporting a deadlock (the bubble could not drain)"
+						mu.Unlock()
+					} else if attempt < 2 {
+						mu.Lock()
+						workerRestarts++
+						mu.Unlock()
+
+						continue
+					} else {
+						c.engineError("[%s] CS worker %d/%d died without result (three attempts): %s", label, sh, shards, tail)
+					}
 				}
-				if gotEarly {
-					mu.Lock()
-					total.Capped = "a worker died after reporting a deadlock (the bubble could not drain)"
-					mu.Unlock()
-				} else {
-					c.engineError("[%s] CS worker %d/%d died without result: %s", label, sh, shards, tail)
-				}
+
+				return
 			}
 		}(sh)
 	}
 	wg.Wait()
+	if workerRestarts > 0 {
+		c.add("cs_worker_restarts", workerRestarts)
+	}
 	c.add("executions", total.Execs)
 	c.add("states", total.Steps) // scheduler decisions taken on the real code
 	c.add("transitions", total.Steps)
